@@ -205,6 +205,51 @@ Proof.
   intros x Hx. exact (svc_lines_from_healthy _ _ _ _ _ _ _ Hcfg Hx).
 Qed.
 
+(* ---- the last delivered service config is the final registry state's ---- *)
+Fixpoint svc_texts (h : list event) : list str :=
+  match h with
+  | [] => []
+  | Svc t :: r => t :: svc_texts r
+  | Man _ :: r => svc_texts r
+  end.
+Lemma last_cons_default {A} (l : list A) t d : last (t :: l) d = last l t.
+Proof. revert t. induction l as [|x l IH]; intros t; [reflexivity|]. cbn [last] in *. destruct l; [reflexivity | apply IH]. Qed.
+Lemma last_svc_texts h : forall d, last_svc h d = last (svc_texts h) d.
+Proof.
+  induction h as [|[t|t] h IH]; intros d; cbn [last_svc svc_texts]; [reflexivity | | apply IH].
+  rewrite IH. symmetry. apply last_cons_default.
+Qed.
+Lemma last_map_ok (l : list str) d : last (map (@Ok str) l) (Ok d) = Ok (last l d).
+Proof. induction l as [|x l IH]; [reflexivity|]. cbn [map last]. destruct l; [reflexivity | exact IH]. Qed.
+
+(* the service texts of a delivery history being the watcher's deliveries for the observed
+   snapshots (in order, Model/Consul.v [watch_deliveries]), the last service text is the config
+   of the final registry state *)
+Theorem last_delivery_is_final_state prefix status strict snaps final tf h d :
+  map (@Ok str) (svc_texts h) = watch_deliveries prefix status strict (snaps ++ [final]) ->
+  svc_config prefix status strict (fst final) (snd final) = Ok tf ->
+  last_svc h d = tf.
+Proof.
+  intros H Hf. rewrite last_svc_texts.
+  apply (f_equal (fun l => last l (Ok d))) in H. rewrite last_map_ok in H.
+  unfold watch_deliveries in H. rewrite map_app in H. cbn [map] in H. rewrite last_last, Hf in H.
+  now inversion H.
+Qed.
+
+(* quiescence in terms of the registry: once the registry's view stops changing at state
+   [final], the active table is the table of final's config plus the last manual text *)
+Theorem watch_quiescent_final_state (table : Type) (build : str -> option table)
+        prefix status strict snaps final tf (w : wstate table) h e T :
+  inv table build w ->
+  map (@Ok str) (svc_texts (h ++ [e])) = watch_deliveries prefix status strict (snaps ++ [final]) ->
+  svc_config prefix status strict (fst final) (snd final) = Ok tf ->
+  build (next_text tf (last_man (h ++ [e]) (w_man w))) = Some T ->
+  w_active (run table build w (h ++ [e])) = T /\ w_first (run table build w (h ++ [e])) = true.
+Proof.
+  intros Hw Hd Hf Hb. apply watch_quiescent; [exact Hw|].
+  now rewrite (last_delivery_is_final_state _ _ _ _ _ _ _ (w_svc w) Hd Hf).
+Qed.
+
 (* non-vacuity: a concrete builder and a history with an invalid candidate in the middle *)
 Example watch_nonvacuous :
   let build := fun t : str => if has_prefix t (bs "bad") then None else Some t in
